@@ -34,10 +34,12 @@ ASSUMPTIONS = [
 REQUIRED_COUNTERS = {
     "quick": {"forward_vs_reference_checked": 500, "matrix_entries_checked": 40000, "exactdata_checked": 180,
               "noise_affine_checked": 170, "posterior_logd_checked": 400, "components_identity_checked": 180,
-              "noise_stat_pooled_samples": 1500, "psf_tie_cases_checked": 12, "psf_tie_cases_2d_checked": 4},
+              "noise_stat_pooled_samples": 1500, "psf_tie_cases_checked": 12, "psf_tie_cases_2d_checked": 4,
+              "observation_map_cases_checked": 50, "observation_nonmonotone_checked": 8, "observation_offnode_checked": 12},
     "thorough": {"forward_vs_reference_checked": 4000, "matrix_entries_checked": 300000, "exactdata_checked": 1200,
                  "noise_affine_checked": 1200, "posterior_logd_checked": 2500, "components_identity_checked": 1200,
-                 "noise_stat_pooled_samples": 15000, "psf_tie_cases_checked": 90, "psf_tie_cases_2d_checked": 25},
+                 "noise_stat_pooled_samples": 15000, "psf_tie_cases_checked": 90, "psf_tie_cases_2d_checked": 25,
+                 "observation_map_cases_checked": 350, "observation_nonmonotone_checked": 60, "observation_offnode_checked": 90},
 }
 BUDGET_S = {"quick": 240.0, "thorough": 1500.0}
 
@@ -47,7 +49,9 @@ PSF_KINDS = ("gauss", "moffat", "defocus", "custom_sym", "custom_asym", "custom_
 LEGACY_KINDS = ("gauss", "sinc", "prolate", "vonmises", "custom_sym", "custom_asym", "custom_sym_neg", "custom_asym_neg")
 FIELDS = ("none", "KL", "KL_modes", "KL_Full", "Step", "CustomKL", "geomobj")
 ABEL_FIELDS = ("none", "KL", "KL_modes", "Step", "CustomKL", "geomobj")
-OBS = (None, "every2", "every3from1", "upper", "three")
+OBS = (None, "every2", "perm", "mid", "every3from1", "reversed", "mixed", "upper", "repeat_perm", "single", "three",
+       "mixed_perm", "repeat", "full_reversed", "single_mid", "full")
+OBS_NONMONOTONE = ("perm", "reversed", "repeat_perm", "mixed_perm", "full_reversed")
 PHANTOMS_2D = ("satellite", "shepp_logan", "grains", "cat", "camera")
 
 # ----------------------------------------------------------------------------- case generation
@@ -178,7 +182,7 @@ def _field_params(r, field, n_nodes):
         return {"npar": r.randint(2, 6), "bseed": r.randrange(10 ** 6)}
     return {}
 
-def _pde_case(r, problem, field):
+def _pde_case(r, problem, field, obs=None):
     c = {"kind": problem, "field": field}
     if problem == "heat":
         c["dim"] = r.randint(6, 40)
@@ -201,12 +205,12 @@ def _pde_case(r, problem, field):
     if problem == "heat":
         c["map"] = r.choice([None, None, "exp", "affine", "sqplus"])
         c["steps"] = r.randint(5, 160)
-        c["obs"] = r.choice(OBS)
+        c["obs"] = obs
         c["exact"] = r.choice([None, None, "ndarray", "zeros", "neg"])
     elif problem == "poisson":
         needs_pos = c["field"] in ("KL", "KL_modes", "KL_Full", "CustomKL", "geomobj")
         c["map"] = "exp" if needs_pos else r.choice([None, None, "exp", "affine", "sqplus"])
-        c["obs"] = r.choice(OBS)
+        c["obs"] = obs
         c["exact"] = r.choice([None, None, "ndarray", "ones", "neg"])
         c["source"] = r.choice(["default", "recorded_default", "poly", "sin"])
     else:
@@ -232,10 +236,12 @@ def cases(tier, seed):
         for kind in PSF_KINDS:
             for bc in BC2:
                 out.append(_d2_case(r, kind, bc, tier, tie=rnd % 2 == 0))
+    k = 0
     for _ in range(8 if q else 60):
-        for field in FIELDS:
-            out.append(_pde_case(r, "heat", field))
-            out.append(_pde_case(r, "poisson", field))
+        for field in FIELDS:        # the observation rules are cycled (7 fields, 16 rules: every pair meets)
+            out.append(_pde_case(r, "heat", field, obs=OBS[(k + 5) % len(OBS)]))
+            out.append(_pde_case(r, "poisson", field, obs=OBS[k % len(OBS)]))
+            k += 1
     for _ in range(7 if q else 50):
         for field in ABEL_FIELDS:
             out.append(_pde_case(r, "abel", field))
@@ -838,17 +844,30 @@ def _run_d2(case, ctx, cuqi, rs):
 
 # ----------------------------------------------------------------------------- PDE / Abel problems
 
-def _obs_indices(rule, n):
-    if rule is None: return list(range(n))
-    if rule == "every2": return list(range(0, n, 2))
-    if rule == "every3from1": return list(range(1, n, 3))
-    if rule == "upper": return list(range(n // 2, n))
-    if rule == "three": return sorted({1, n // 2, n - 2})
+def _obs_positions(rule, n):
+    """observation points as [(k, half)]: node k of the solution grid or the mid-point of nodes k, k+1 - in the order given (n >= 6)"""
+    N = lambda ks: [(int(k), False) for k in ks]
+    if rule is None or rule == "full": return N(range(n))
+    if rule == "every2": return N(range(0, n, 2))
+    if rule == "every3from1": return N(range(1, n, 3))
+    if rule == "upper": return N(range(n // 2, n))
+    if rule == "three": return N(sorted({1, n // 2, n - 2}))
+    if rule == "perm": return N([n - 2, 1, n // 2, 0])                      # nodes in an order that is not increasing
+    if rule == "reversed": return N(range(n - 1, n - 1 - max(3, n // 2), -1))
+    if rule == "full_reversed": return N(range(n - 1, -1, -1))
+    if rule == "repeat": return N([1, 1, n // 2, n - 2, n - 2])             # repeated nodes, non-decreasing
+    if rule == "repeat_perm": return N([n // 2, 1, n // 2])
+    if rule == "mid": return [(k, True) for k in range(0, n - 1, 2)]        # off-node points
+    if rule == "mixed": return [(1, False), (2, True), (n - 2, False), (n - 2, True)]
+    if rule == "mixed_perm": return [(n - 2, False), (2, True), (1, False)]
+    if rule == "single": return [(n // 2, False)]
+    if rule == "single_mid": return [(n // 2, True)]
     raise ValueError(rule)
 
 def _obs_lambda(rule):
     if rule is None: return None
-    return lambda g: g[np.array(_obs_indices(rule, len(g)))]
+    if rule == "full": return lambda g: g.copy()
+    return lambda g: R.obs_points(g, _obs_positions(rule, len(g)))
 
 def _geomobj(cuqi, grid, npar, bseed):
     B = np.random.RandomState(bseed).rand(len(grid), npar) + 0.1
@@ -950,7 +969,10 @@ def _run_pde(case, ctx, cuqi, rs):
     obs = case.get("obs")
     if obs is not None:
         kwargs["observation_grid_map"] = _obs_lambda(obs)
-    oidx = np.array(_obs_indices(obs, n_sol))
+    opos = _obs_positions(obs, n_sol)
+    all_nodes = not any(h for _, h in opos)
+    obs_kind = "steady" if prob == "poisson" else "heat"
+    obs_grid_ref = None     # set below per problem (reference solution grid)
     exact_given = None
     if case.get("exact") is not None:
         exact_given = {"ndarray": np.exp(0.3 * rs.randn(n_dom)) if prob == "poisson" else rs.randn(n_dom), "zeros": np.zeros(n_dom),
@@ -960,6 +982,10 @@ def _run_pde(case, ctx, cuqi, rs):
     np.random.seed(case["np_seed"])
     with Scripted() as rec:
         kind_, tp = core.outcome(cls, **kwargs)
+    if kind_ == "refused" and prob == "heat" and obs in OBS_NONMONOTONE and isinstance(tp, ValueError):
+        # the time-dependent observation refuses observation points that are not in increasing order
+        ctx.refused("heat observation grid not increasing", tp); ctx.count("refusal_observed"); ctx.nontrivial("heat_obs_refusal")
+        return
     if kind_ != "value":
         ctx.violation("constructor_failed", {**cfg, "exc": type(tp).__name__}, detail=f"documented option combination raised {tp!r}")
         return
@@ -968,7 +994,8 @@ def _run_pde(case, ctx, cuqi, rs):
         par2fun_ref = lambda p: _arr(inner.par2fun(_arr(p)))
         ctx.count("field_taken_from_library")
     field_ref = lambda p: R.apply_map(mp, par2fun_ref(p))
-    F_fun = lambda f: solve(f)[oidx]
+    obs_grid_ref = grid_dom if prob == "heat" else (grid_sol if prob == "poisson" else np.arange(n_sol, dtype=float))
+    F_fun = lambda f: R.observe(obs_grid_ref, solve(f), opos, obs_kind)
     F_par = lambda p: F_fun(field_ref(p))
     # parameter points (Poisson needs a positive conductivity)
     def point():
@@ -991,6 +1018,13 @@ def _run_pde(case, ctx, cuqi, rs):
     # function values as input
     ok_fun = _compare_forward(ctx, {**cfg, "input": "funvals"}, lambda f: tp.model.forward(f, is_par=False), [(None, F_fun)], fvals, tol=tol,
                               what="forward(funvals, is_par=False)")
+    if obs is not None:         # which observation-map classes the forward comparison actually covered
+        ctx.count("observation_map_cases_checked")
+        ctx.count("observation_points_checked", len(opos) * (len(pts) + len(fvals)))
+        if obs in OBS_NONMONOTONE: ctx.count("observation_nonmonotone_checked")
+        if not all_nodes: ctx.count("observation_offnode_checked")
+        if len(opos) != len({p_ for p_ in opos}): ctx.count("observation_repeated_point_checked")
+        if len(opos) == 1: ctx.count("observation_single_point_checked")
     if prob == "abel" and case["field"] == "none" and mp is None:
         M = np.asarray(tp.model.get_matrix())
         ctx.count("matrix_entries_checked", dim * dim)
@@ -1000,7 +1034,7 @@ def _run_pde(case, ctx, cuqi, rs):
     if prob == "poisson":
         rgrid = _arr(tp.model.range_geometry.grid)
         ctx.count("range_grid_checked")
-        if _relerr(rgrid, grid_sol[oidx]) > 1e-12 and _relerr(rgrid, grid_src[oidx]) > 1e-12:
+        if _relerr(rgrid, R.obs_points(grid_sol, opos)) > 1e-12 and _relerr(rgrid, R.obs_points(grid_src, opos)) > 1e-12:
             ctx.violation("range_grid_mismatch", cfg, detail="range geometry grid is not the (observed part of the) solution grid")
         if src_calls:
             ctx.count("source_grid_checked")
@@ -1011,7 +1045,7 @@ def _run_pde(case, ctx, cuqi, rs):
     if prob == "heat":
         rgrid = _arr(tp.model.range_geometry.grid)
         ctx.count("range_grid_checked")
-        if _relerr(rgrid, grid_dom[oidx]) > 1e-12:
+        if _relerr(rgrid, R.obs_points(grid_dom, opos)) > 1e-12:
             ctx.violation("range_grid_mismatch", cfg, detail="range geometry grid is not the (observed part of the) solution grid")
     # exact solution
     ctx.count("exactsolution_checked")
@@ -1029,7 +1063,7 @@ def _run_pde(case, ctx, cuqi, rs):
     if getattr(tp.exactSolution, "is_par", None) is not False:
         ctx.violation("exactsolution_mismatch", {**cfg, "what": "is_par"}, detail="exactSolution (function values) is flagged as parameters")
     sigma = lambda y: float(np.linalg.norm(y)) / snr
-    P = _Problem(tp, cfg, (F_par if F_eff is not None else None), sigma, len(oidx), pdim, (lambda x: R.gauss_logpdf_diag(x, 0.0, 1.0)), pts,
+    P = _Problem(tp, cfg, (F_par if F_eff is not None else None), sigma, len(opos), pdim, (lambda x: R.gauss_logpdf_diag(x, 0.0, 1.0)), pts,
                  info_expect=(("signal to noise ratio", snr) if prob == "heat" else None),
                  fun_of_exact=None, exact_tol=tol)
     # exact data = model applied to the exact solution (function values)
